@@ -9,7 +9,7 @@ from hypothesis import strategies as st
 
 from vlib import gens
 from vlib.core import unchanged, Prop, Sub, Violation, calling, check
-from vlib.oracles import hull_dist, lp_dist
+from vlib.oracles import _linprog, hull_dist, lp_dist
 from vlib.systems import Sys, matrix_system
 
 Z_MAX = 6.5   # |z| threshold: per-test false-alarm probability ~8e-11
@@ -251,7 +251,7 @@ def est_case(draw):
     sysd = draw(matrix_system(m=(2, 4), n=(2, 5), ub_kinds=("finite", "finite", "inf"), K_kinds=("none", "scalar", "vector"),
                               base_kinds=("none", "scalar", "vector")))
     return dict(system=sysd, n=draw(st.integers(1, 30)), engine=draw(st.sampled_from([None, None, "Halton", "Sobol", "LHC"])),
-                seed=draw(gens.seed_value()), use_l1=draw(st.booleans()), l1_t=draw(st.floats(0.15, 0.85)),
+                seed=draw(gens.seed_value()), use_l1=draw(st.booleans()), l1_t=draw(st.one_of(st.floats(0.15, 0.85), gens.log_uniform(0.003, 0.15))),
                 relative=draw(st.sampled_from([True, True, False])))
 
 
@@ -294,6 +294,34 @@ def body_est(case):
           observed=dict(l1=l1))
     if l1 is None:
         labs.append("nt:gamut-sample")
+    if engine is None:
+        # coverage: uniform samples reach every corner region of the sampled set.  For a convex body of dimension k the cap of relative
+        # depth t below its extreme point in any direction holds at least t^k of the volume (the body shrunk by t about that point),
+        # so 400 independent uniform samples miss it with probability (1 - t^k)^400 < 1e-12 for t = 0.067^(1/k).
+        k = sv.m - (1 if l1 is not None else 0)
+        if k >= 1:
+            with calling(f"ReceptorEstimator.sample_in_hull(n=400, l1={'yes' if l1 else 'no'})"):
+                with np.errstate(all="ignore"):
+                    Xc = np.asarray(est.sample_in_hull(n=400, seed=seed, l1=l1, relative=rel))
+            t = 0.067 ** (1.0 / k)
+            A_eq = None if l1 is None else Ap.sum(axis=0)[None, :]
+            b_eq = None if l1 is None else [l1 - float(basep.sum())]
+            bnds = [(float(a), float(b)) for a, b in zip(sv.lb, ub_eff)]
+            for i in range(sv.m):
+                lo_r = _linprog(Ap[i], A_eq=A_eq, b_eq=b_eq, bounds=bnds)
+                hi_r = _linprog(-Ap[i], A_eq=A_eq, b_eq=b_eq, bounds=bnds)
+                if lo_r.status != 0 or hi_r.status != 0:
+                    labs.append("coverage-lp-failed")
+                    continue
+                lo, hi = float(lo_r.fun) + basep[i], -float(hi_r.fun) + basep[i]
+                w = hi - lo
+                if w <= 1e-6 * ext:
+                    continue
+                check(Xc[:, i].max() >= hi - t * w - 1e-9 * ext, "est:coverage" + (":l1" if l1 is not None else ""),
+                      f"none of 400 uniform samples has receptor {i} above {hi - t * w:.6g} although the sampled set reaches {hi:.6g} (lowest {lo:.6g}; l1={l1})")
+                check(Xc[:, i].min() <= lo + t * w + 1e-9 * ext, "est:coverage" + (":l1" if l1 is not None else ""),
+                      f"none of 400 uniform samples has receptor {i} below {lo + t * w:.6g} although the sampled set reaches {lo:.6g} (highest {hi:.6g}; l1={l1})")
+            labs.append("nt:coverage-checked")
     return labs
 
 
